@@ -19,7 +19,7 @@ import time
 VERIF = os.path.dirname(os.path.dirname(os.path.abspath(__file__)))
 REPO = os.environ.get("VERIF_REPO", "/repo")
 VXSPAN = os.path.join(VERIF, "vx", "vxspan", "target", "debug", "vxspan")
-BUILD = os.path.join(VERIF, "build")
+BUILD = os.environ.get("VERIF_BUILD_DIR") or os.path.join(VERIF, "build")  # per-worker scratch when the seed matrix runs in parallel
 
 
 class Inconclusive(Exception):
@@ -429,6 +429,8 @@ class Unit:
                 item["sigtext"] = full
             elif name == "proof":
                 item["proof"] = full
+            elif name == "preproof":
+                item["preproof"] = full
             elif name == "closurefn":
                 # @closurefn <closure local name> captures <name: Type>, ...
                 m = re.match(r"^(\w+)\s+captures\s+(.*)$", full, re.S)
@@ -704,6 +706,11 @@ class Gen:
                 k = int(sel.get("arg", 0))
                 if k < len(args):
                     hits.append(args[k])
+            if "call" in sel and n["k"] == "Call" and norm(n["a"].get("func", "")) == norm(sel["call"]):
+                args = kids(n, "arg")
+                k = int(sel.get("arg", 0))
+                if k < len(args):
+                    hits.append(args[k])
             if "assign" in sel and n["k"] == "Assign" and norm(src.text(kid(n, "left"))) == norm(sel["assign"]):
                 hits.append(kid(n, "right"))
             if "let" in sel and n["k"] == "Local" and kid(n, "pat")["a"].get("ident") == sel["let"] and kid(n, "init") is not None:
@@ -733,10 +740,10 @@ class Gen:
                 for c in cs:
                     self.reg(c)
                     self.emit("        " + c.text + ",\n", ("clause", c.id))
-        self.emit("{\n    let __r = ", ("glue",))
+        self.emit("{\n    " + (it.get("preproof") or "") + "\n    let __r = ", ("glue",))
         ed = Edits(src, e["s"], e["e"])
         pseudo = {"name": it["name"], "loops": {}, "opts": [], "closurefns": {}, "letty": {}, "callmap": it.get("callmap", []), "arounds": [], "ats": [],
-                  "external": True, "genfns": {}, "binops": []}
+                  "external": True, "genfns": {}, "binops": [], "strvars": it.get("strvars", [])}
         self.rewrite_body(pseudo, src, fn, e, ed)
         for a, b in it.get("substs", []):
             t = src.text(e)
@@ -1847,7 +1854,7 @@ class Gen:
                 if not last or last[-1]["k"] != "StmtExpr" or last[-1]["a"].get("semi"):
                     raise Inconclusive(f"lost anchor: {it['name']} has no tail expression")
                 te = last[-1]
-                ed.insert(te["s"], "let __r = ", ("glue",))
+                ed.insert(te["s"], "let __r = ", ("glue",), prio=-1)
                 ed.insert(te["e"], ";\n" + cl.text + "\n__r", ("clause", cl.id))
                 continue
             if anchor.strip() == "first":
